@@ -189,6 +189,52 @@ let cmd_idt toks =
     Buffer.contents b
   | _ -> failwith "idt"
 
+(* ---------- xattr writer / reader ---------- *)
+let parse_sets s =
+  List.map (fun set ->
+      if set = "-" then [] else
+      List.map (fun kv -> match String.split_on_char ':' kv with
+          | [k; v] -> (unhex k, unhex v)
+          | _ -> failwith "kv") (String.split_on_char ',' set))
+    (String.split_on_char ';' s)
+
+let starts_fun s =
+  (* block starts as reported by the harness; blocks beyond the list do not exist (far away offset) *)
+  let a = Array.of_list (List.map n_of_string (split_on ',' s)) in
+  let bs k = let i = int_of_n k in if i < Array.length a then a.(i) else n_of_int (max_int / 4 + i) in
+  let bidx off =
+    let r = ref None in
+    Array.iteri (fun i v -> if !r = None && v = off then r := Some (n_of_int i)) a; !r in
+  (bs, bidx)
+
+let cmd_xw toks =
+  match toks with
+  | [sets; k; t] ->
+    let strip p s = if String.length s > 2 && String.sub s 0 2 = p then String.sub s 2 (String.length s - 2) else failwith "starts" in
+    let (bsK, bidxK) = starts_fun (strip "K=" k) and (bsT, bidxT) = starts_fun (strip "T=" t) in
+    let adderr = ref 0 in
+    let w = ref xw_empty in
+    let idxs = List.map (fun set ->
+        w := xw_begin !w;
+        List.iter (fun (key, v) -> match xw_add_kv !w key v with
+            | Ok w' -> w := w'
+            | Err e -> if !adderr = 0 then adderr := int_of_z e
+            | _ -> if !adderr = 0 then adderr := 12345) set;
+        let (w', i) = xw_end !w in
+        w := w'; i) (parse_sets sets) in
+    let idx_s = String.concat "," (List.map sn idxs) in
+    (match flush bsK bsT true !w with
+     | Ok None -> Printf.sprintf "idx=%s add=%d flush=0 none" idx_s !adderr
+     | Ok (Some img) ->
+       let rd = String.concat ";" (List.map (fun i ->
+           match rd_all bidxK bidxT img i with
+           | Ok l -> "0/" ^ String.concat "," (List.map (fun (k, v) -> hex k ^ ":" ^ hex v) l)
+           | r -> rc_s r ^ "/") idxs) in
+       Printf.sprintf "idx=%s add=%d flush=0 kv=%s ids=%s num=%s locs=%s load=0 rd=%s" idx_s !adderr
+         (hex img.xi_kv) (hex img.xi_ids) (sn img.xi_num) (String.concat "," (List.map sn img.xi_locs)) rd
+     | r -> Printf.sprintf "idx=%s add=%d flush=%s" idx_s !adderr (rc_s r))
+  | _ -> failwith "xw"
+
 let () =
   (try
     while true do
@@ -201,6 +247,7 @@ let () =
          | "mut" :: r -> print_endline (cmd_mut r)
          | "ser" :: r -> print_endline (cmd_ser r)
          | "idt" :: r -> print_endline (cmd_idt r)
+         | "xw" :: r -> print_endline (cmd_xw r)
          | _ -> print_endline "PARSE")
       with Failure m -> print_endline ("PARSE " ^ m))
     done
